@@ -6,7 +6,7 @@
 export GOFLAGS=-mod=mod GOPROXY=off GOSUMDB=off GOTOOLCHAIN=local
 S=$(mktemp -d /tmp/vpass-XXXXXX); trap 'rm -rf $S' EXIT
 cd ${VERIF_REPO:-/repo}
-git ls-files -co --exclude-standard | grep -E '(\.go$|^go\.(mod|sum)$)' | grep -vE '^(benchmarks|run|\.github)/' | while read f; do [ -f "$f" ] && cp --parents "$f" "$S/"; done
+git ls-files -co --exclude-standard | grep -vE '^(benchmarks|run|\.github)/' | while read f; do [ -f "$f" ] && cp --parents "$f" "$S/"; done
 cd $S
 cat >> go.mod <<EOT
 
